@@ -118,9 +118,30 @@ Definition run_extract (r : list Z) : list Z :=
   | _ => [-999]
   end.
 
+(* mode 3: extract_wfs_array alone.
+   input : [3; ns; nan_row; to; L; stride] ++ channel_neighbors (n :: (k :: items)...) ++ spikes (n :: sample peak ...)
+   output: [0] | 1 :: n :: nnb :: L :: cells (NaN = -1) ++ cind (n*nnb) *)
+Definition run_array (r : list Z) : list Z :=
+  match r with
+  | ns :: nanrow :: to :: L :: stride :: r1 =>
+      let '(ci, r2) := dec_listlist r1 in
+      let '(sps, _) := dec_pairs r2 in
+      let P := mkCfg ns nanrow to L 0 1 0 1 [] [] in
+      let rows := map (fun sp => mkRow 0 (fst sp) 0 (snd sp) 0) sps in
+      let nnb := match ci with [] => 0 | c :: _ => zlen c end in
+      match extract_array Z (fun ch s => s * stride + ch) P ci ns rows,
+            sequence (map (fun sp => chan_row ci (snd sp)) sps) with
+      | Some wfs, Some cind =>
+          [1; zlen wfs; nnb; L] ++ flat_map (fun w => enc_wf nnb L (Some w)) wfs ++ concat cind
+      | _, _ => [0]
+      end
+  | _ => [-999]
+  end.
+
 Definition run (inp : list Z) : list Z :=
   match inp with
   | 1 :: r => run_extract r
+  | 3 :: r => run_array r
   | 2 :: r2n :: r2d :: padv :: r =>
       let '(geom, _) := dec_pairs r in
       let ci := channel_index geom r2n r2d padv in
